@@ -283,7 +283,7 @@ def check_push_content(ctx, res):
                         for (at, base, off, ln, byte, rev) in poss:
                             if base != 'H' or byte != 0:
                                 continue
-                            nul = fm.add(fm.add(off, ln), fm.add(fm.lin_atom(at), one), -1) if rev else fm.add(off, fm.lin_atom(at))
+                            nul = content.found_index((at, base, off, ln, byte, rev))
                             if eq(x, fm.add(nul, one)):
                                 return True
                         return False
@@ -335,14 +335,14 @@ def check_push_content(ctx, res):
                     def minimal_prefix(r):
                         """r = 1 + index of the first NUL at or after index need - 1 (search evaluated by the code itself)"""
                         for (at, base, off, ln, byte, rev) in poss:
-                            if base == 'H' and byte == 0 and not rev and eq(fm.add(off, one), need) and eq(r, fm.add(fm.add(off, fm.lin_atom(at)), one)):
+                            if base == 'H' and byte == 0 and rev is False and eq(fm.add(off, one), need) and eq(r, fm.add(fm.add(off, fm.lin_atom(at)), one)):
                                 return True
                         return False
                     if not src:
                         # everything was dropped
                         if rule.feasible(w, [fm.le(one, used0)]):
                             allneeded = le(used_mid, need) or any(
-                                base == 'H' and byte == 0 and not rev and eq(fm.add(off, one), need) and le(used_mid, fm.add(fm.add(off, fm.lin_atom(at)), one))
+                                base == 'H' and byte == 0 and rev is False and eq(fm.add(off, one), need) and le(used_mid, fm.add(fm.add(off, fm.lin_atom(at)), one))
                                 for (at, base, off, ln, byte, rev) in poss) or le(used_mid, ZERO)
                             # dropping "everything" when the only stored entry is the older copy of the line itself
                             alldup = eq(used0, fm.add(tl, one))
@@ -443,16 +443,16 @@ def check_recall_content(ctx, res):
                         anchor = hc0 if had_cursor else used0         # start of the current entry / end of the stored bytes
                         e = fm.add(anchor, one, -1)                   # the NUL that terminates the entry before it
                         ob('ends-at-terminator', eq(fm.add(s_, ln), e), "the returned element does not end at the NUL before the current position")
-                        found = any(rev and eq(off, ZERO) and eq(sl, e) and eq(s_, fm.add(fm.add(off, sl), fm.lin_atom(at), -1))
-                                    for (at, b_, off, sl, byte, rev) in poss)
-                        first = eq(s_, ZERO) and any(rev and eq(off, ZERO) and eq(sl, e) for (b_, off, sl, byte, rev) in nones)
+                        found = any(content.from_end(m) and eq(m[2], ZERO) and eq(m[3], e) and eq(s_, fm.add(content.found_index(m), one))
+                                    for m in poss)
+                        first = eq(s_, ZERO) and any(rev in (True, 'rpos') and eq(off, ZERO) and eq(sl, e) for (b_, off, sl, byte, rev) in nones)
                         ob('starts-at-entry-start', found or first,
                            "the returned element does not start one past the nearest NUL before its end (or at 0 when there is none)")
                     else:
                         # the first NUL at or after the cursor ends the current entry; the next entry starts one past it
-                        nxt = [(at, off) for (at, b_, off, sl, byte, rev) in poss if not rev and eq(off, hc0) and eq(s_, fm.add(fm.add(off, fm.lin_atom(at)), one))]
+                        nxt = [(at, off) for (at, b_, off, sl, byte, rev) in poss if rev is False and eq(off, hc0) and eq(s_, fm.add(fm.add(off, fm.lin_atom(at)), one))]
                         ob('starts-after-current', bool(nxt), "the returned element does not start one past the first NUL at or after the cursor")
-                        ends = any(not rev and eq(off, s_) and eq(ln, fm.lin_atom(at)) for (at, b_, off, sl, byte, rev) in poss)
+                        ends = any(rev is False and eq(off, s_) and eq(ln, fm.lin_atom(at)) for (at, b_, off, sl, byte, rev) in poss)
                         ob('ends-at-terminator', ends, "the returned element does not end at the first NUL at or after its start")
         if n_some < 4:
             raise KeyError("History recall: only %d element-returning exits analysed" % n_some)
